@@ -20,31 +20,31 @@ package hsrv
 // client-derived text is never in the format position.
 
 //@ func Server.Printf(s, color, format, v)
-//@   props C10
+//@   props C10 C09 C05
 //@   ghost n int = 0
 //@   on send s.och(cl): assert(cl.Line == sprintf(format, v) && cl.Color == color && cl.NoTimestamp && !cl.Plain, "line_is_the_formatted_message"); n++
 //@   ensures one_line: n == 1
 
 //@ func Server.Logf(s, color, format, v)
-//@   props C10
+//@   props C10 C09 C05
 //@   ghost n int = 0
 //@   on send s.och(cl): assert(cl.Line == sprintf(format, v) && cl.Color == color && !cl.Plain, "line_is_the_formatted_message"); n++
 //@   ensures one_line: n == 1
 
 //@ func Server.ErrorLogf(s, format, v)
-//@   props C10
+//@   props C10 C09 C05
 //@   ghost n int = 0
 //@   on enter Server.Logf(ss, c, f, vv): assert(ss == s && c == ErrorColor && sprintf(f, vv) == sprintf(format, v), "message_passed_on_unchanged"); n++
 //@   ensures one_line: n == 1
 
 //@ func Server.RLogf(s, color, r, format, v)
-//@   props C10
+//@   props C10 C09 C05
 //@   ghost n int = 0
 //@   on enter Server.Logf(ss, c, f, vv): assert(ss == s && c == color && sprintf(f, vv) == "[" + remoteHost(r) + "] " + sprintf(format, v), "notice_is_host_plus_message_verbatim"); n++
 //@   ensures one_line: n == 1
 
 //@ func Server.RErrorLogf(s, r, format, v)
-//@   props C10
+//@   props C10 C09 C05
 //@   ghost n int = 0
 //@   on enter Server.ErrorLogf(ss, f, vv): assert(ss == s && sprintf(f, vv) == "[" + remoteHost(r) + "] " + sprintf(format, v), "notice_is_host_plus_message_verbatim"); n++
 //@   ensures one_line: n == 1
@@ -67,10 +67,14 @@ package hsrv
 //@   ensures once: n == 1
 
 //@ func Server.inOutHandler(s, w, r)
-//@   props C01 C06
+//@   props C01 C06 C03
 //@   assumes body: r.Body != nil
 //@   ghost n int = 0
-//@   on enter Broker.ConnectInOut(b, c, l, a, ww, rr): assert(b == s.iob && ww == w && rr == r.Body && c == r.Context(), "callshape"); n++
+//@   ghost duplex bool = false
+//@   ghost flushed bool = false
+//@   on call http.ResponseController.EnableFullDuplex(c) (e): assert(!flushed, "full_duplex_is_enabled_before_any_response_byte_is_written"); duplex = true
+//@   on enter http.ResponseController.Flush(c): assert(duplex, "response_header_is_sent_only_after_full_duplex_is_enabled_so_the_request_body_is_not_discarded"); flushed = true
+//@   on enter Broker.ConnectInOut(b, c, l, a, ww, rr): assert(b == s.iob && ww == w && rr == r.Body && c == r.Context(), "callshape"); assert(duplex, "shell_output_is_read_in_full_duplex_mode"); n++
 //@   ensures at_most_once: n <= 1
 
 // ---- static files (C09)
@@ -255,6 +259,10 @@ package hsrv
 //@   on call netip.ParseAddrPort(x) (p, e): if nParse == 0 { assert(x == s.l.Addr().String(), "bound_address_is_parsed") }; nParse++
 //@   on call strconv.Itoa(n) (v): assert(nPort == 0 && n == int(ap.Port()), "port_text_is_the_bound_port"); portv = v; nPort++
 //@   on enter net.JoinHostPort(h, p): assert(nPort == 1 && p == portv && p == port, "added_port_is_the_bound_port")
+//@   ghost sorted []string = nil
+//@   ghost nSorted int = 0
+//@   on call sortAddresses(as0) (r0): sorted = r0; nSorted++
+//@   ensures returns_the_sorted_deduplicated_list: imp(err == nil, nSorted == 1 && addrs == sorted)
 //@   on enter sortAddresses(as): assert(imp(!ap.Addr().IsUnspecified(), len(as) >= 1 && as[len(as)-1] == ap.String()), "specific_bound_address_is_listed_in_host_port_form")
 //@   ghost lastA string = ""
 //@   ghost lastHas bool = false
